@@ -934,6 +934,107 @@ theorem fetchVal_img (cfg : Cfg) (n : Node) (hwf : WF n) (hone : AtMostOne cfg n
   simp only [fetchVal, img, Node.children, Node.data, outVals_imgL,
     restore_data_faithful cfg _ _ dg hi hd hone.1 a ha]
 
+/-! ### loading in place -/
+
+/-- clearing the detached path of the first record -/
+def headNoDet : List Rec → List Rec
+  | [] => []
+  | r :: rest => { r with core := { r.core with detached := none } } :: rest
+
+theorem obs_adopt (p : Path) (n : Node) : obs p n.adopt = headNoDet (obs p n) := by
+  cases n; simp [Node.adopt, obs, headNoDet, Core.seen]
+
+theorem obs_withDetached_none (p : Path) (d : Option Path) (n : Node) :
+    obs p (n.withDetached none) = headNoDet (obs p (n.withDetached d)) := by
+  cases n; simp [Node.withDetached, obs, headNoDet, Core.seen]
+
+theorem withDetached_none_self (n : Node) (h : n.core.detached = none) : n.withDetached none = n := by
+  cases n with
+  | mk c _ _ _ =>
+    simp only [Node.core] at h
+    simp only [Node.withDetached]
+    congr
+    cases c; simp_all
+
+/-- equal observations ⇒ equal label tables -/
+theorem iface_of_obs (p : Path) (n m : Node) (h : obs p n = obs p m) :
+    n.core.label = m.core.label ∧ labelsOf n.core.ins = labelsOf m.core.ins ∧
+    labelsOf n.core.outs = labelsOf m.core.outs ∧ n.core.sigIns = m.core.sigIns ∧ n.core.sigOuts = m.core.sigOuts := by
+  cases n with
+  | mk c _ _ _ =>
+  cases m with
+  | mk c' _ _ _ =>
+  simp only [obs, List.cons.injEq, Rec.mk.injEq] at h
+  have hs := h.1.2.1
+  simp only [Node.core]
+  have e1 : c.label = c'.label := by simpa [Core.seen] using congrArg Core.label hs
+  have e2 : c.ins = c'.ins := by simpa [Core.seen] using congrArg Core.ins hs
+  have e3 : c.outs = c'.outs := by simpa [Core.seen] using congrArg Core.outs hs
+  have e4 : c.sigIns = c'.sigIns := by simpa [Core.seen] using congrArg Core.sigIns hs
+  have e5 : c.sigOuts = c'.sigOuts := by simpa [Core.seen] using congrArg Core.sigOuts hs
+  simp [e1, e2, e3, e4, e5]
+
+/-- replacing children by nodes that show the same leaves every table and the observation as it was -/
+theorem replace_same (l : Lbl) (n' : Node) :
+    ∀ (ch : List Node), (∀ c ∈ ch, c.core.label = l → ∀ p, obs p n' = obs p c) →
+      childLabels (replaceChild ch l n') = childLabels ch ∧ inDom (replaceChild ch l n') = inDom ch ∧
+      outDom (replaceChild ch l n') = outDom ch ∧ sInDom (replaceChild ch l n') = sInDom ch ∧
+      sOutDom (replaceChild ch l n') = sOutDom ch ∧ ∀ p, obsL p (replaceChild ch l n') = obsL p ch := by
+  intro ch
+  induction ch with
+  | nil => intro _; simp [replaceChild, childLabels, inDom, outDom, sInDom, sOutDom, obsL]
+  | cons c ch ih =>
+    intro h
+    obtain ⟨i1, i2, i3, i4, i5, i6⟩ := ih (fun x hx => h x (by simp [hx]))
+    simp only [replaceChild, childLabels, inDom, outDom, sInDom, sOutDom, List.map_cons, List.flatMap_cons] at *
+    by_cases hc : c.core.label = l
+    · have ho := h c (by simp) hc
+      obtain ⟨e1, e2, e3, e4, e5⟩ := iface_of_obs [] n' c (ho [])
+      simp only [hc, if_true]
+      refine ⟨by simp [e1, hc, i1], by simp [e1, e2, hc, i2], by simp [e1, e3, hc, i3],
+        by simp [e1, e4, hc, i4], by simp [e1, e5, hc, i5], fun p => ?_⟩
+      simp [obsL, ho p, i6 p]
+    · simp only [hc, if_false]
+      exact ⟨by simp [i1], by simp [i2], by simp [i3], by simp [i4], by simp [i5], fun p => by simp [obsL, i6 p]⟩
+
+theorem unique_label (ch : List Node) (hnd : (childLabels ch).Nodup) (l : Lbl) (child : Node)
+    (hf : ch.find? (fun x => decide (x.core.label = l)) = some child) :
+    ∀ c ∈ ch, c.core.label = l → c = child := by
+  induction ch with
+  | nil => simp at hf
+  | cons x ch ih =>
+    simp only [childLabels, List.map_cons, List.nodup_cons] at hnd
+    intro c hc hl
+    by_cases hx : x.core.label = l
+    · simp only [List.find?, hx, decide_true] at hf
+      have hxc : x = child := Option.some.inj hf
+      rcases List.mem_cons.mp hc with rfl | hc'
+      · exact hxc
+      · exfalso
+        apply hnd.1
+        rw [hx, ← hl]
+        exact List.mem_map.mpr ⟨c, hc', rfl⟩
+    · have hf' : ch.find? (fun x => decide (x.core.label = l)) = some child := by
+        simpa [List.find?, hx] using hf
+      rcases List.mem_cons.mp hc with rfl | hc'
+      · exact absurd hl hx
+      · exact ih hnd.2 hf' c hc' hl
+
+/-- a child that loads, in place, the state it has just saved: its parent shows what it showed -/
+theorem loadInPlace_keeps (cfg : Cfg) (c : Core) (ch : List Node) (dg sg : CG) (l : Lbl) (child : Node)
+    (hnd : (childLabels ch).Nodup) (hf : ch.find? (fun x => decide (x.core.label = l)) = some child)
+    (hwf : WF child) (hdet : child.core.detached = none) (hone : AtMostOne cfg child)
+    (hset : cfg.anyPush = true → Settled child) (pp : Option Path) :
+    ∃ g', loadInPlace cfg true pp (.mk c ch dg sg) l = .ok g' ∧ ∀ p, obs p g' = obs p (.mk c ch dg sg) := by
+  obtain ⟨n', h1, h2⟩ := fileLoad_save cfg child hwf hset hone (some (lexPath (c.forState pp).detached c.label))
+  have hobs : ∀ p, obs p n'.adopt = obs p child := by
+    intro p
+    rw [obs_adopt, h2 p, ← obs_withDetached_none, withDetached_none_self child hdet]
+  have hu := unique_label ch hnd l child hf
+  obtain ⟨_, e2, _, _, e5, e6⟩ := replace_same l n'.adopt ch (fun x hx hl p => by rw [hu x hx hl]; exact hobs p)
+  refine ⟨.mk c (replaceChild ch l n'.adopt) dg sg, by simp only [loadInPlace, hf, h1, if_true], fun p => ?_⟩
+  simp only [obs, e2, e5, e6]
+
 /-! ### table-given graphs -/
 
 theorem lookupD_mem (t : List (Addr × List Addr)) (a x : Addr) (h : x ∈ lookupD t a) :
